@@ -4,5 +4,5 @@ CONSTANTS
   MaxN = 3
   Durs = {"1/2", "1", "2"}
   Orders = {2, 3, 4}
-INVARIANTS Exists Defining Optimal Book EnergyLaws Coordwise AdjointOK EnergyGradOK Metamorphic
+INVARIANTS Exists Defining Optimal Book EnergyLaws Coordwise AdjointOK EnergyGradOK Metamorphic Variational Algo
 CHECK_DEADLOCK FALSE
